@@ -1,5 +1,7 @@
 package sim
 
+import "time"
+
 // Dialogue devices for C12: causal CLI devices (on top of CLI/Pipe) that ask questions, and that
 // record for every Write the state the device was in when the bytes arrived. Together with
 // Pipe.Writes[i].EmittedBefore / DeliveredBefore this is the pacing oracle: an input that arrives
@@ -8,6 +10,10 @@ package sim
 // DlgStep is the device's reaction to one received line: NL + Out, then either a question (Ask != "")
 // or the prompt of mode NextMode. Hidden says whether the answer to the question is echoed.
 type DlgStep struct {
+	// Pre, when set, is a line the device prints first (e.g. a status line that looks like a
+	// prompt); delivery stops right after it for Hold before the rest of the reaction flows.
+	Pre      string
+	Hold     time.Duration
 	Out      string
 	Ask      string
 	Hidden   bool
@@ -87,6 +93,10 @@ func NewDialogue(mode string, prompts map[string]string, script []DlgStep) *Dial
 		}
 		d.step++
 		// the question is part of the output; CLI adds the prompt only at a command prompt
+		if st.Pre != "" {
+			holdAfter(c.Pipe, len(c.NL)+len(st.Pre), st.Hold)
+			return st.Pre + c.NL + st.Out + st.Ask
+		}
 		return st.Out + st.Ask
 	}
 	inner := d.CLI.Pipe.OnWrite
@@ -98,12 +108,29 @@ func NewDialogue(mode string, prompts map[string]string, script []DlgStep) *Dial
 	return d
 }
 
+// holdAfter (pipe locked) makes delivery stop n bytes after what has been emitted so far, for
+// the given time: what the device prints next is cut into "the first n bytes now, the rest later".
+func holdAfter(p *Pipe, n int, hold time.Duration) {
+	p.StallAt = p.Emitted + n
+	time.AfterFunc(hold, func() {
+		p.Mu.Lock()
+		p.StallAt = -1
+		p.Wake()
+		p.Mu.Unlock()
+	})
+}
+
 // EscDevice is an IOS-like device for privilege escalation. Outcome selects what `enable` does in
 // mode exec: "ask" (password question; Secret admits, anything else is refused), "grant" (enters
 // privilege-exec without asking), "refuse" (prints an error, stays in exec, never asks).
 type EscDevice struct {
 	*CLI
 	Outcome   string
+	// Detour, when set, is printed (and held for Hold) in answer to `enable` before the password
+	// question, e.g. the prompt of an unrelated level. Outcome "detour-only": `enable` drops the
+	// device into mode configuration without any question.
+	Detour    string
+	Hold      time.Duration
 	Secret    string
 	AskText   string // what the password question looks like, e.g. "Password:"
 	Host      string
@@ -155,6 +182,9 @@ func NewEscDevice(host, outcome, secret, askText string) *EscDevice {
 			return ""
 		case line == "enable" && c.Mode == "exec":
 			switch d.Outcome {
+			case "detour-only":
+				c.Mode = "configuration"
+				return ""
 			case "grant":
 				c.Mode = "privilege-exec"
 				return ""
@@ -164,6 +194,10 @@ func NewEscDevice(host, outcome, secret, askText string) *EscDevice {
 			d.asking = true
 			d.Asked++
 			c.Hidden = true
+			if d.Detour != "" {
+				holdAfter(c.Pipe, len(c.NL)+len(d.Detour), d.Hold)
+				return d.Detour + c.NL + d.AskText
+			}
 			return d.AskText
 		case line == "disable" && c.Mode == "privilege-exec":
 			c.Mode = "exec"
